@@ -218,7 +218,7 @@ fn applied_index(n: &Node) -> usize {
 }
 
 /// case = {"id", "app": "metadata"|"kv", "entries": [...], "ops": [{"op":"apply","n":"A","k":2} |
-/// {"op":"build","n":"A"} | {"op":"install","m":"B","from":"A"} | {"op":"get_snapshot","n":"A"}]}.
+/// {"op":"build","n":"A"} | {"op":"install","m":"B","from":"A"[,"corrupt":true]}]}.
 /// `apply` feeds the adapter the next k entries after the index its own applied_state() reports, in
 /// ONE call (one stream), as openraft does. After every op the views of all nodes are recorded.
 fn run_case(case: &Value) -> Value {
@@ -283,7 +283,15 @@ fn run_case(case: &Value) -> Value {
                 let from = op["from"].as_str().unwrap_or("A").to_string();
                 match built.get(&from).cloned() {
                     None => step["res"] = json!({"res": "skipped", "why": "no snapshot built on sender"}),
-                    Some((meta, bytes)) => {
+                    Some((meta, mut bytes)) => {
+                        let corrupt = op["corrupt"].as_bool().unwrap_or(false);
+                        if corrupt {
+                            // damaged in transit: the last byte is missing (never decodes: every
+                            // snapshot format here ends in a length-prefixed map)
+                            if bytes.pop().is_none() {
+                                bytes.push(0xff);
+                            }
+                        }
                         let node = nodes.get_mut(&m).expect("node");
                         // the bytes travel as they would over the network
                         let r = block_on(async {
@@ -302,10 +310,10 @@ fn run_case(case: &Value) -> Value {
                             _ => false,
                         };
                         step["res"] = match r {
-                            Ok(()) => json!({"res": "ok", "current_snapshot_matches": cur_ok,
+                            Ok(()) => json!({"res": "ok", "current_snapshot_matches": cur_ok, "corrupt": corrupt,
                                              "snap_last": log_id_json(&meta.last_log_id)}),
                             Err(e) => json!({"res": "err", "err": e.to_string(), "current_snapshot_matches": cur_ok,
-                                             "snap_last": log_id_json(&meta.last_log_id)}),
+                                             "corrupt": corrupt, "snap_last": log_id_json(&meta.last_log_id)}),
                         };
                     }
                 }
